@@ -46,6 +46,8 @@ func childMain(role string, args []string) int {
 		return childLinger(args)
 	case "dial":
 		return childDial(args)
+	case "daemoncmd":
+		return childDaemonCmd(args)
 	case "dialenv":
 		return childDialEnv(args)
 	}
